@@ -13,16 +13,16 @@ PROPS = {
     'C02': {
         'level': 'exploration',
         'required_probes': ['converged-at-first-permitted-pass', 'converged-at-max_iter', 'moved-exactly-tol', 'some-but-not-all-within-tol', 'max_iter=0', 'negative-t', 'offset-used', 'rejected:IndexError', 'rejected:ValueError', 'empty-check-list', 'sibling-instance-in-history', 'history:copy'],
-        'strata': [('scripted-finite', 'solver', 0.8), ('parser-built', 'solver_parser', 0.2)],
+        'strata': [('scripted-finite', 'solver', 0.7), ('parser-built', 'solver_parser', 0.2), ('outcome-sequences-systematic', 'solver_seq', 0.1)],
         'quick': 40000,
-        'thorough': 600000,
+        'thorough': 600000,  # 10 % of it is 60 000 >= the 46 416 points of the outcome-sequence lattice: every point once
     },
     'C06': {
         'level': 'fault_enumeration',
         'required_probes': ['healed', 'preexisting-nonfinite-rejected', 'pass-raised', 'pre-hook-raised', 'post-hook-raised', 'replaced', 'nonfinite-on-last-pass', 'pass-starting-from-nonfinite-not-judged', 'warning-statement:strict', 'warning-statement:lenient'],
-        'strata': [('scripted-faults', 'solver_faults', 0.8), ('parser-natural-faults', 'solver_parser', 0.2)],
+        'strata': [('scripted-faults', 'solver_faults', 0.55), ('parser-natural-faults', 'solver_parser', 0.15), ('single-fault-lattice', 'solver_lattice', 0.3)],
         'quick': 40000,
-        'thorough': 600000,
+        'thorough': 1420000,  # 30 % of it is 426 000 >= the 422 400 points of the single-fault lattice: every point once
     },
     'C04': {
         'level': 'exploration',
@@ -83,6 +83,13 @@ PROPS = {
         'quick': 16000,
         'thorough': 300000,
     },
+}
+
+# strata whose schedules are enumerated by run index (point = index mod size in the thorough tier, strided in quick)
+SYSTEMATIC = {
+    'C02': {'outcome-sequences-systematic': 46416},
+    'C06': {'single-fault-lattice': 422400},
+    'C09': {'operation-pairs-systematic': 169 * 169},
 }
 
 COMPONENTS = {
@@ -199,6 +206,10 @@ def write_evidence_file(prop, tier, base_seed, cfg, agg, new, known_hit, replays
             'known_findings_hit': [v['signature'] for v in known_hit],
             'new_violation_signatures': [v['signature'] for v in new],
             'replay_files': replays,
+            'systematic_strata': {
+                name: {'points': pts, 'runs': int(agg['per_stratum'].get(name, 0)), 'every_point_visited': bool(tier == 'thorough' and agg['per_stratum'].get(name, 0) >= pts)}
+                for name, pts in SYSTEMATIC.get(prop, {}).items()
+            },
             'required_probes_at_zero': [p_ for p_ in cfg.get('required_probes', []) if agg['probes'].get(p_, 0) == 0],
             'components': COMPONENTS,
             'exhaustive': False,
